@@ -14,9 +14,10 @@ import (
 func init() { cmds["sched"] = schedCmd }
 
 // vh sched: run scenarios on the real step scheduler and write their traces.
-//   -family F -count N -seed S [-first I]   seeded random scenarios with random gate schedules
-//   -scenarios file                         scenarios (JSON lines) produced elsewhere (TLC behaviours, replays)
-//   -free                                   free-running mode (no parking)
+//
+//	-family F -count N -seed S [-first I]   seeded random scenarios with random gate schedules
+//	-scenarios file                         scenarios (JSON lines) produced elsewhere (TLC behaviours, replays)
+//	-free                                   free-running mode (no parking)
 func schedCmd(args []string) int {
 	fs := flag.NewFlagSet("sched", flag.ExitOnError)
 	family := fs.String("family", "order", "scenario family")
